@@ -310,6 +310,23 @@ theorem split_buf_never_overflows (input : Bytes) (buflen : Nat) :
   · exact ⟨_, splitQueryBuf_fold input buflen,
       fold_inv writeS writeS_inv _ ⟨buflen, []⟩ (by simp [usedBy])⟩
 
+/-- (D16b, what "omits what does not fit" means) for **every** buffer size and every component with well-formed
+escapes the buffer writers only ever *omit* segments, they never alter, reorder or invent one: coap_split_query
+returns a sublist of S's values, coap_split_path returns S's dot-segment resolution of a sublist of the decoded
+segments (a ".." after an omitted segment removes the one before it — the resolution is applied to what was kept). -/
+theorem split_buf_omits_only (input : Bytes) (buflen : Nat) (ds : List Bytes) :
+    (decodeAll (rawSegs pathStop pathSep input) = some ds →
+      ∃ ds' : List Bytes, ds'.Sublist ds ∧ MU.splitPath input buflen = R.ok (resolve ds')) ∧
+    (Spec.Uri.splitQuery input = some ds →
+      ∃ ds' : List Bytes, ds'.Sublist ds ∧ MU.splitQuery input buflen = R.ok ds') := by
+  constructor
+  · intro hd
+    obtain ⟨ds', hsub, hf⟩ := fold_buf_path_sub _ ds ⟨buflen, []⟩ hd
+    exact ⟨ds', hsub, by rw [splitPathBuf_fold, hf]; rfl⟩
+  · intro hd
+    obtain ⟨ds', hsub, hf⟩ := fold_buf_query_sub _ ds ⟨buflen, []⟩ hd
+    exact ⟨ds', hsub, by rw [splitQueryBuf_fold, hf]; simp⟩
+
 -- "a/./%2e%2E/b%41c/" in a buffer of 17 + 2·5 + 1 bytes; the documented 17 + 2·5 are enough too (small segments)
 example : Spec.Uri.splitPath [97, 47, 46, 47, 37, 50, 101, 37, 50, 69, 47, 98, 37, 52, 49, 99, 47] = some [[98, 65, 99], []] ∧
     (rawSegs pathStop pathSep [97, 47, 46, 47, 37, 50, 101, 37, 50, 69, 47, 98, 37, 52, 49, 99, 47]).length = 5 ∧
